@@ -6,16 +6,22 @@ from lib.vlib import *
 META = {
     "property_id": "C19",
     "technique": "Coq proof over a Gallina model of internal/project/config.go (writer, go-toml's string encoder as "
-                 "called, a decoder for the emitted grammar, version validation, CleanPath) + generated-configuration correspondence",
+                 "called, a decoder for the emitted grammar, version validation, CleanPath; the file WriteConfigFile leaves as a "
+                 "function of the destination's previous state) + generated-configuration correspondence + rewrite-in-place oracle",
     "level_text": "Theorems (Coq, unbounded): for every valid configuration (strings valid UTF-8 - arbitrary Unicode, quotes "
                   "and control characters - requirement versions canonical semver, paths in clean form) load(write c) = c and "
                   "hence write(load(write c)) = write c; the string encoder/decoder pair round-trips every UTF-8 string and "
-                  "key quoting round-trips every key incl. the empty one. The model is tied to config.go/version.go/go-toml "
+                  "key quoting round-trips every key incl. the empty one; the file left by a rewrite of an existing path (any previous "
+                  "contents, any history of rewrites) is write c and loads back as c. The model is tied to config.go/version.go/go-toml "
                   "by ~1500 generated configurations (every control character, quote styles, DEL, Latin-1, BMP, astral, "
                   "empty, invalid UTF-8, canonical and non-canonical versions, clean and unclean paths ('@' in any segment, major "
                   "suffixes of every length and digit pattern), all 16 layouts, many-requirement maps): written bytes and loaded "
                   "structure compared exactly; every path/version string with a function-level case is also inside a whole "
-                  "configuration under the direct round-trip oracle.",
+                  "configuration under the direct round-trip oracle. Rewriting in place (get/tidy): every configuration is also "
+                  "written over the previous one's file and over a hand-written layout of itself (comments, alignment, sub-tables, "
+                  "CRLF, compact), 16 base configurations over ~28 previous states each (absent, empty, identical, own bytes + tail, "
+                  "truncated, superset/subset serialisations, random bytes of every relative length, 64 KiB, symbolic link), and "
+                  "load-modify-write histories on one path; oracle: bytes at the path = bytes of a fresh write, and they load back.",
     "level_note": "Trusted: Coq kernel. go-toml v2 (encoder as called by dawn; decoder on the grammar the writer emits), "
                   "golang.org/x/mod/semver and path.Clean are third-party: modelled, validated by the correspondence only. "
                   "The model decoder covers only documents the writer produces; hand-edited dawn.toml files are out of scope. "
@@ -23,7 +29,7 @@ META = {
     "design_ref": "DESIGN.md §6 C19",
 }
 
-HDR = "From Dawn Require Import Config.Model Config.Run.\nOpen Scope N_scope.\n"
+HDR = "From Dawn Require Import Config.Model Config.File Config.Run.\nOpen Scope N_scope.\n"
 
 
 def hb(h):
@@ -49,7 +55,9 @@ def run(ctx):
     recs = []
     for k in range(nruns):
         env = {"VERIF_OUT": out, "VERIF_SEED": str(ctx.seed + 1000 * k), "VERIF_NRAND": "300" if ctx.quick() else "1500",
-               "VERIF_MAXPATH": "4" if ctx.quick() else "5"}
+               "VERIF_MAXPATH": "4" if ctx.quick() else "5",
+               # rewriting in place: random base configurations for the previous-state family, get/tidy histories
+               "VERIF_NBASE": "8" if ctx.quick() else "30", "VERIF_NCHAIN": "40" if ctx.quick() else "200"}
         rc, o = ctx.go_overlay_test("internal/project",
                                     {"zz_verif_c19_test.go": os.path.join(HARNESS, "overlay/internal/project/zz_verif_c19_test.go")},
                                     "^TestVerifC19$", env)
@@ -73,6 +81,7 @@ def run(ctx):
 
     nvalid = 0
     stats = {}
+    rwstats, notes = {}, []
     for r in recs:
         if r["t"] == "ORACLE":
             oracles.append(r)
@@ -85,6 +94,15 @@ def run(ctx):
             add("CClean %s %s" % (hb(r["s"]), hb(r["ref"])), {"t": "clean-reference", "s": r["s"], "out": r["ref"]}, "cleanpath:reference")
         elif r["t"] == "stats":
             stats = r
+        elif r["t"] == "rwstats":
+            for k, v in r["counts"].items():
+                rwstats[k] = rwstats.get(k, 0) + v
+        elif r["t"] == "NOTE":
+            notes.append(r)
+        elif r["t"] == "rw":
+            # the file at a path that was in state `old` (None = absent) after WriteConfigFile(path, cfg)
+            add("CRewrite %s %s %s" % ("None" if r["old"] is None else "(Some %s)" % hb(r["old"]), cq_cfg(r["cfg"]), hb(r["bytes"])),
+                r, "rewrite:" + r["prior"].split(":")[0])
         elif r["t"] == "cfg":
             if "panic" in r:
                 panics.append(r)
@@ -109,9 +127,17 @@ def run(ctx):
                             "long digit runs, non-numeric suffixes, every 1- and 2-segment path over 17 '@'-bearing segments under 3 roots, "
                             "sampled 3-4 segment ones; every one of these strings that is in clean form (%s of %s) and every canonical "
                             "version string (%s of %s) is also a requirement of a packed whole configuration under the direct oracle; "
-                            "failing configurations are shrunk before being reported"
+                            "failing configurations are shrunk before being reported. Rewriting in place: %s writes over a destination "
+                            "that is not fresh (previous contents longer %s / shorter %s / same length %s / absent %s): every "
+                            "configuration over the previous one's file, every valid one over a hand-written layout of itself, base "
+                            "configurations x explicit previous states (these are also CRewrite cases of the model), %s steps of "
+                            "load-modify-write histories; oracle = bytes equal a fresh write and load back as the configuration written"
                             % (nvalid, stats.get("paths_in_configs"), stats.get("path_strings"), stats.get("versions_in_configs"),
-                               stats.get("version_strings")))
+                               stats.get("version_strings"),
+                               sum(v for k, v in rwstats.items() if k.startswith("family:")), rwstats.get("onto:longer"),
+                               rwstats.get("onto:shorter"), rwstats.get("onto:same-length"), rwstats.get("onto:absent"),
+                               rwstats.get("family:history")))
+    ctx.coverage["rewrite_in_place"] = rwstats
     ctx.coverage["exhaustive"] = False
     ctx.coverage["correspondence"]["distribution"] = dist
     ctx.add_samples([{"config": show_cfg(r["cfg"]), "bytes": bytes.fromhex(r["bytes"]).decode("utf-8", "backslashreplace")}
@@ -120,12 +146,29 @@ def run(ctx):
     groups = {}
     for r in oracles:
         groups.setdefault(r["name"], []).append(r)
+    txt = lambda h: bytes.fromhex(h).decode("utf-8", "backslashreplace")
     for name, rs in groups.items():
-        r = min(rs, key=lambda x: len(x["bytes"]) + len(json.dumps(x["cfg"])))
+        r = min(rs, key=lambda x: len(x["bytes"]) + len(x.get("old") or "") + len(json.dumps(x["cfg"])))
+        shrunk = show_cfg(r["orig"]) if r.get("orig") and r["orig"] != r["cfg"] else None
+        if "fresh" in r:   # rewriting in place: the destination's previous state is part of the failing input
+            was = "no file" if r["old"] is None else ("%d bytes %r" % (len(r["old"]) // 2, txt(r["old"])[:80]))
+            ctx.violation("implementation violates C19 oracle %s: WriteConfigFile of %s over a destination holding %s (%d failing rewrites)"
+                          % (name, show_cfg(r["cfg"]), was, len(rs)),
+                          {"oracle": name, "config": show_cfg(r["cfg"]), "config_hex": r["cfg"],
+                           "destination_before": None if r["old"] is None else txt(r["old"]), "destination_before_hex": r["old"],
+                           "destination_is_symbolic_link": r.get("link", False),
+                           "destination_after": txt(r["bytes"]), "destination_after_hex": r["bytes"],
+                           "fresh_path_write": txt(r["fresh"]), "detail": r["detail"], "found_in": r.get("from"),
+                           "history": [show_cfg(h) for h in r.get("history") or []] or None, "shrunk_from": shrunk,
+                           "how": "os.WriteFile(path, destination_before); WriteConfigFile(path, cfg); os.ReadFile(path) must equal "
+                                  "the bytes of WriteConfigFile(fresh, cfg) and LoadConfigFile(path) must give cfg; "
+                                  "harness/overlay/internal/project/zz_verif_c19_test.go (rwDo)"},
+                          key=name)
+            continue
         ctx.violation("implementation violates C19 oracle %s on %s (%d failing configurations)" % (name, show_cfg(r["cfg"]), len(rs)),
                       {"oracle": name, "config": show_cfg(r["cfg"]), "config_hex": r["cfg"],
-                       "written_bytes": bytes.fromhex(r["bytes"]).decode("utf-8", "backslashreplace"), "detail": r["detail"],
-                       "found_in": r.get("from"), "shrunk_from": show_cfg(r["orig"]) if r.get("orig") and r["orig"] != r["cfg"] else None,
+                       "written_bytes": txt(r["bytes"]), "detail": r["detail"],
+                       "found_in": r.get("from"), "shrunk_from": shrunk,
                        "how": "WriteConfigFile(tmp, cfg); LoadConfigFile(tmp); WriteConfigFile again; "
                               "harness/overlay/internal/project/zz_verif_c19_test.go"},
                       key={"second-write-differs": "rewrite-not-stable"}.get(name, name))
@@ -159,6 +202,11 @@ def run(ctx):
         ctx.log("note: %d model/implementation differences when loading NOT-valid configurations (outside C19), e.g. %s"
                 % (len(lenient), descr[lenient[0]]["kind"]))
     ctx.coverage["correspondence"]["cases"] = len(cases)
+    ctx.coverage["hand_written_layout_notes"] = len(notes)
+    if notes:
+        # the harness's own TOML printer (hand-written layouts) produced a file that does not load, or loads as another
+        # configuration: that file is then not used (or the loaded configuration is); not a statement about dawn
+        ctx.log("note: %d hand-written layouts were not usable (%s), e.g. %s" % (len(notes), notes[0]["name"], show_cfg(notes[0]["cfg"])))
     ctx.coverage["correspondence"]["mismatches"] = len(mism)
     ctx.log("cases=%d mismatches=%d oracle_failures=%d valid_configs=%d" % (len(cases), len(mism), len(oracles), nvalid))
     if mism and not oracles and not panics:
@@ -168,6 +216,9 @@ def run(ctx):
                 return {"case": cases[i].split(" ")[0], "kind": d["kind"], "config": show_cfg(d["cfg"]),
                         "bytes": bytes.fromhex(d["bytes"]).decode("utf-8", "backslashreplace"),
                         "loaded": None if d["lerr"] else show_cfg(d["loaded"])}
+            if d["t"] == "rw":
+                return {"case": "CRewrite", "previous_state": d["prior"], "config": show_cfg(d["cfg"]),
+                        "destination_before": None if d["old"] is None else txt(d["old"]), "destination_after": txt(d["bytes"])}
             return d
         exs = [ex(i) for i in mism[:5]]
         ctx.violation("model/implementation disagree on %d cases, e.g. %s" % (len(mism), exs[0]),
